@@ -1,6 +1,7 @@
 (* C14 - executable model of rdflib/compare.py's _TripleCanonicalizer as it is
    after the "fix:" commits 66dfcd58 (equal-score guard), e4e9757a (pairings are
-   verified to be automorphisms) and fef10715 (tying candidates are kept, the
+   verified to be automorphisms), 07e5253f (blank predicates enter a colour
+   without their label) and fef10715 (tying candidates are kept, the
    smallest leaf is returned):  Color (hash_color, key,
    distinguish), _initial_color, _refine with its work list and the final
    "hash collision" merge, _individuate, _get_candidates, _experimental_path,
@@ -24,9 +25,14 @@ From RV Require Export Iso.Model.
 
 Definition str := list N.
 
+(* the predicate of a colour item: _pred(p) of fix 07e5253f - an IRI as itself, a
+   blank node as the fixed BNode("") whatever its label *)
+Inductive ipred := PConst (n : N) | PBlank.
+Definition ipred_of (p : term) : ipred := match p with Const n => PConst n | Blank _ => PBlank end.
+
 Inductive citem :=
-| IOut (p : term) (h : str)     (* (1, p, W.hash_color()) *)
-| IIn (p : term) (h : str)      (* (W.hash_color(), p, 3) *)
+| IOut (p : ipred) (h : str)    (* (1, _pred(p), W.hash_color()) *)
+| IIn (p : ipred) (h : str)     (* (W.hash_color(), _pred(p), 3) *)
 | IInd (n : nat).               (* (len(color.nodes),)   from _individuate *)
 
 (* Color: .nodes, .color (a tuple of items, or - for the non-blank neighbours -
@@ -89,11 +95,14 @@ Section Canon.
   Variable tstr : ctriple -> str.    (* " ".join(x.n3() for x in canonical triple) *)
 
   Definition sp : str := [32%N].
+  (* BNode("").n3() = "_:" *)
+  Definition pstr (p : ipred) : str :=
+    match p with PConst n => n3 (Const n) | PBlank => [95%N; 58%N] end.
   (* " ".join([stringify(x) for x in item]) *)
   Definition enc_item (it : citem) : str :=
     match it with
-    | IOut p h => [49%N] ++ sp ++ n3 p ++ sp ++ h
-    | IIn p h => h ++ sp ++ n3 p ++ sp ++ [51%N]
+    | IOut p h => [49%N] ++ sp ++ pstr p ++ sp ++ h
+    | IIn p h => h ++ sp ++ pstr p ++ sp ++ [51%N]
     | IInd n => decs n
     end.
 
@@ -123,12 +132,6 @@ Section Canon.
   Definition c_discrete (c : color) : bool := Nat.eqb (length (nodes c)) 1.
   Definition m_discrete (cs : list color) : bool := forallb c_discrete cs.
 
-  Definition citem_eqb (a b : citem) : bool :=
-    match a, b with
-    | IOut p h, IOut q k | IIn p h, IIn q k => term_eqb p q && str_eqb h k
-    | IInd n, IInd m => Nat.eqb n m
-    | _, _ => false
-    end.
   Definition color_eqb (a b : color) : bool :=
     list_eqb term_eqb (nodes a) (nodes b) && str_eqb (chash a) (chash b).
 
@@ -156,8 +159,8 @@ Section Canon.
     (* ---- Color.distinguish ---- *)
     Definition sig (hW : str) (W : list term) (n : term) : list citem :=
       flat_map (fun node =>
-                  map (fun t => IOut (pred_of t) hW) (filter (edge n node) g)
-                  ++ map (fun t => IIn (pred_of t) hW) (filter (edge node n) g)) W.
+                  map (fun t => IOut (ipred_of (pred_of t)) hW) (filter (edge n node) g)
+                  ++ map (fun t => IIn (ipred_of (pred_of t)) hW) (filter (edge node n) g)) W.
 
     (* colors: dict[str, Color]; colors[h].nodes.append(n) *)
     Fixpoint group_ins (h : str) (newc : list citem) (n : term) (gs : list (str * color))
